@@ -38,6 +38,9 @@ PIECES = [
     ("    r = [GLOBAL for _ in range(1)]\n", False),
     ("    global GLOBAL\n    r = GLOBAL\n", False),
     ("    def inner():\n        global a\n        return a\n    r = inner()\n", False),   # nested 'global' of an outer local: a global load hidden from co_varnames
+    # a comprehension variable (inlined into the function's own locals since Python 3.12) that is ALSO used as a global outside it
+    ("    ys = [COMPVAR for COMPVAR in range(2)]\n    r = COMPVAR\n", False),
+    ("    ys = {COMPVAR: 1 for COMPVAR in 'ab'}\n    r = [COMPVAR, len(ys)]\n", False),
     ("    r = SHADOW(a)\n", "shadow"),
     ("    r = (lambda: SHADOW)()\n", "shadow"),
 ]
@@ -67,7 +70,7 @@ def gen_module(rng, k):
     body = ""
     for p, _ in pieces:
         body += p.replace("SHADOW", shadow or "abs")
-    src = lead + "import os\nGLOBAL = 5\n\ndef helper(x):\n    return x\n\ndef deco(fn):\n    return fn\n\n"
+    src = lead + "import os\nGLOBAL = 5\nCOMPVAR = 7\n\ndef helper(x):\n    return x\n\ndef deco(fn):\n    return fn\n\n"
     if shadow:
         src += "def %s(x):\n    return ('shadowed', x)\n\n" % shadow
     src += ("@deco\n" if deco else "") + "def f%s:\n    r = None\n%s    channel.send(r)\n" % (sig, body)
